@@ -203,28 +203,6 @@ Definition Safe (e : env) (d : desc) : bool :=
   end
   && match d_tail d with TData _ nm => part_safe (KData, nm) | _ => true end.
 
-(* ---------- well-formed descriptors (what the compiler can create) -------------- *)
-(* components are non-empty and contain no '/'; the file is a ".capy" file
-   below the module directory or the current directory *)
-Definition comp_ok (c : str) : bool :=
-  negb (match c with [] => true | _ => false end) && negb (existsb (fun x => (x =? 47)%N) c).
-
-Definition wf_file (e : env) (f : list str) : bool :=
-  forallb comp_ok f
-  && (is_sub_dir_of f (mod_dir e) || is_sub_dir_of f (cur_dir e))
-  && match List.rev f with
-     | x :: _ => match strip_capy x with Some _ => true | None => false end
-     | [] => false
-     end.
-
-Definition WF (e : env) (d : desc) : bool :=
-  match d_base d with
-  | BGlobal f n => wf_file e f && negb (match n with [] => true | _ => false end)
-  | BLambda f _ None => wf_file e f
-  | BLambda f _ (Some (gf, gn)) =>
-      wf_file e f && wf_file e gf && negb (match gn with [] => true | _ => false end)
-  end.
-
 (* ---------- collision mechanisms (run-time classifier, extracted) ---------------- *)
 (* Given two descriptors with the same mangled name, name every mechanism that
    makes them differ.  Codes:
@@ -289,6 +267,36 @@ Definition rel_split (e : env) (f : list str) : option (bool * option str * list
            end
       else Some (is_mod, None, rel)
   end.
+
+(* ---------- well-formed descriptors (what the compiler can create) -------------- *)
+(* components are non-empty and contain no '/'; the file is a ".capy" file strictly
+   below the module directory or the current directory (a file is never a
+   directory of the configuration); no retained component is the bare name
+   ".capy" (its mangled text would be empty); names are non-empty *)
+Definition is_nil {A : Type} (l : list A) : bool := match l with [] => true | _ => false end.
+
+Definition comp_ok (c : str) : bool :=
+  negb (is_nil c) && negb (existsb (fun x => (x =? 47)%N) c).
+
+Definition wf_file (e : env) (f : list str) : bool :=
+  forallb comp_ok f
+  && match rel_split e f with
+     | Some (_, _, rest) =>
+         negb (is_nil rest) && forallb (fun c => negb (is_nil (norm_component c))) rest
+     | None => false
+     end
+  && match List.rev f with
+     | x :: _ => match strip_capy x with Some _ => true | None => false end
+     | [] => false
+     end.
+
+Definition WF (e : env) (d : desc) : bool :=
+  match d_base d with
+  | BGlobal f n => wf_file e f && negb (is_nil n)
+  | BLambda f _ None => wf_file e f
+  | BLambda f _ (Some (gf, gn)) => wf_file e f && wf_file e gf && negb (is_nil gn)
+  end
+  && match d_tail d with TData _ nm => negb (is_nil nm) | _ => true end.
 
 Definition opt_str_eqb (a b : option str) : bool :=
   match a, b with
